@@ -81,20 +81,27 @@ ALL_INVS = ["Agree", "PrepareFailurePropagates", "NoDrift", "OutputClean", "Fixe
             "MappingsAgree", "MappingsIdempotent", "AllowsAgree"]
 
 
-def profiles_mc(chk, name, roles, maxlen, profs, ops, instances=(0,), invariants=ALL_INVS, forms=True, workers=6, timeout=2400):
+def profiles_mc(chk, name, roles, maxlen, profs, ops, instances=(0,), invariants=ALL_INVS, forms=True, workers=6, timeout=2400, frame=None):
     """MC_Profiles over a generated alphabet: TLC checks the invariants on every string, emits every
     behaviour, the harness replays them into the real API"""
     import universe
     for inst in instances:
         tag = "%s-i%d" % (name, inst)
-        upath, chosen, u = universe.generate(roles, inst, chk.seed, tag=tag)
+        all_roles = list(roles) + [r for r in (frame[3] if frame else ()) if r not in roles]
+        upath, chosen, u = universe.generate(all_roles, inst, chk.seed, tag=tag, sigma=roles)
         cfg = "SPECIFICATION Spec\nCONSTANTS\n  MaxLen = %d\n  Profs = {%s}\n  Ops = {%s}\n  FirstSyms = {}\n" % (
-            maxlen, ", ".join('"%s"' % p for p in profs), ", ".join('"%s"' % o for o in ops))
+            0 if frame else maxlen, ", ".join('"%s"' % p for p in profs), ", ".join('"%s"' % o for o in ops))
+        if frame:
+            fi, fj, fk, fillers = frame
+            cfg += "  FrameOn = TRUE\n  FI = %d\n  FJ = %d\n  FK = %d\n  Fillers = {%s}\n" % (fi, fj, fk, ", ".join(str(chosen[r]) for r in fillers))
+        else:
+            cfg += "  FrameOn = FALSE\n  FI = 0\n  FJ = 0\n  FK = 0\n  Fillers = {}\n"
         cfg += "".join("INVARIANT %s\n" % i for i in invariants) + "INVARIANT Emit\nVIEW View\nCHECK_DEADLOCK FALSE\n"
         mc = run_mc("MC_Profiles", cfg, tag, workers=workers, timeout=timeout, extra_files=[upath], heap="8g")
         import shutil
         shutil.rmtree(os.path.dirname(upath), ignore_errors=True)
-        label = "%s[%s] len<=%d inst=%d" % (name, ",".join("%s=U+%04X" % (r, chosen[r]) for r in roles), maxlen, inst)
+        label = "%s[%s] %s inst=%d" % (name, ",".join("%s=U+%04X" % (r, chosen[r]) for r in roles),
+                                       ("framed f^i x f^j y f^k i<=%d j<=%d k<=%d fillers %s" % frame) if frame else ("len<=%d" % maxlen), inst)
         if mc.res.violated:
             spec_violation(chk, mc, label)
             continue
@@ -110,6 +117,8 @@ def C04(chk):
     profiles_mc(chk, "case-nfc", ["A", "e", "acute", "Eac", "angst", "Sig", "dotI", "cedil", "ypo"], n, profs, ops, insts)
     profiles_mc(chk, "nfc-bidi", ["heb", "hpt", "a", "d1", "aid", "eaid", "arab", "fatha", "dot"], n, profs, ops, insts)
     profiles_mc(chk, "context-case", ["l", "mdot", "A", "grk", "GRK", "keraia", "ZWJ", "vir", "deva"], n, profs, ops, insts)
+    profiles_mc(chk, "framed", ["A", "FWA", "Eac", "acute", "heb", "hpt", "aid", "d1", "mdot", "l"], 0, profs, ["enforce"], (0,),
+                invariants=["Agree", "NoDrift"], frame=(8, 2, 1, ("a", "eac")) if q else (9, 4, 2, ("a", "eac")))
     apply_l1(chk, ["wm", "lc1", "lc3", "bidi"], nontrivial_key="runs")
     l3_run(chk, "usernames-limits", driver="limits", per_string=2, kinds=["enforce"], profiles=profs, seed_offset=5)
     l3_run(chk, "usernames", strings=500 if q else 6000, per_string=4, kinds=["enforce", "enforce", "prepare"], profiles=profs)
@@ -151,6 +160,7 @@ def C06(chk):
     profiles_mc(chk, "nick-compat", ["a", "rom4", "hcj", "eac", "han", "emo", "FWA", "SP", "diaer"], n, ["NICK"], ops, insts)
     profiles_mc(chk, "nick-hangul", ["jamo", "jamoV", "hsyl", "jamoT", "hcj", "a", "OGH", "SP"], n, ["NICK"], ops, insts)
     profiles_mc(chk, "nick-nfkc", ["e", "acute", "Eac", "cedil", "SP", "rom4", "angst", "hy"], n, ["NICK"], ops, insts)
+    profiles_mc(chk, "nick-latin1", ["micro", "sup2", "ordm", "a", "SP", "diaer", "two"], n, ["NICK"], ops, insts)
     l3_run(chk, "nickname-limits", driver="limits", per_string=2, kinds=["enforce"], profiles=["NICK"], seed_offset=5)
     l3_run(chk, "nickname", strings=500 if q else 6000, per_string=3, kinds=["enforce", "enforce", "prepare"], profiles=["NICK"], max_len=10)
     chk.cov["exhaustive"] = True
@@ -199,6 +209,8 @@ def C12(chk):
     profiles_mc(chk, "spaces", ["SP", "NBSP", "OGH", "a", "eac", "han", "emo"], n, ["NICK", "OPQ"],
                 ["additional_mapping_rule"], insts, invariants=["Agree", "MappingsAgree", "MappingsIdempotent", "OnlySpacesChange"])
     profiles_mc(chk, "spaces-enforce", ["SP", "NBSP", "ISP", "a", "eac", "emo"], n - 1, ["NICK", "OPQ"], ["enforce"], insts)
+    profiles_mc(chk, "spaces-framed", ["SP", "NBSP", "OGH", "ISP", "han", "emo"], 0, ["NICK", "OPQ"], ["additional_mapping_rule", "enforce"], (0,),
+                invariants=["Agree", "MappingsAgree", "MappingsIdempotent"], frame=(8, 3, 2, ("a", "eac")) if q else (9, 9, 3, ("a", "eac", "SP")))
     apply_l1(chk, ["osp", "nsp"], nontrivial_key="zs")
     l3_run(chk, "spaces", strings=400 if q else 5000, per_string=3, kinds=["additional_mapping_rule", "additional_mapping_rule", "enforce"], profiles=["NICK", "OPQ"], max_len=10)
     chk.cov["exhaustive"] = True
@@ -301,6 +313,8 @@ def C07(chk):
                harness_args=["--forms"])
     generic_mc(chk, "MC_Compare", "normalization", ["e", "acute", "Eac", "angst", "rom4", "dotI", "diaer"], {"MaxLen": 2, "Profs": profs}, invs_t, insts,
                harness_args=["--forms"])
+    generic_mc(chk, "MC_Compare", "latin1-compat", ["micro", "mu", "sup2", "two", "ordm", "o", "A"], {"MaxLen": 2, "Profs": profs}, invs_t, (0,),
+               harness_args=["--forms"])
     generic_mc(chk, "MC_Compare", "sigma", ["Sig", "GRK", "grk", "a", "A", "SP"], {"MaxLen": n, "Profs": profs}, invs, (0,),
                harness_args=["--forms"])
     generic_mc(chk, "MC_Compare", "rtl", ["heb", "hpt", "aid", "d1", "a", "SP"], {"MaxLen": n, "Profs": profs}, invs, (0,),
@@ -368,7 +382,7 @@ def C08(chk):
     import shutil
     import universe
     upath, chosen, u = universe.generate(["a", "cher"], 0, chk.seed, tag="c08-cher")
-    cfg = ('SPECIFICATION Spec\nCONSTANTS\n  MaxLen = 2\n  Profs = {"UCM"}\n  Ops = {"enforce"}\n  FirstSyms = {}\n'
+    cfg = ('SPECIFICATION Spec\nCONSTANTS\n  MaxLen = 2\n  Profs = {"UCM"}\n  Ops = {"enforce"}\n  FirstSyms = {}\n  FrameOn = FALSE\n  FI = 0\n  FJ = 0\n  FK = 0\n  Fillers = {}\n'
            "INVARIANT OutputClean\nVIEW View\nCHECK_DEADLOCK FALSE\n")
     mc = run_mc("MC_Profiles", cfg, "c08-cher", workers=2, extra_files=[upath], expect_violation="OutputClean")
     shutil.rmtree(os.path.dirname(upath), ignore_errors=True)
@@ -415,6 +429,8 @@ def C01(chk):
     allp = ["UCM", "UCP", "OPQ", "NICK"]
     ops = ["prepare", "enforce", "width_mapping_rule", "additional_mapping_rule", "case_mapping_rule", "normalization_rule", "directionality_rule"]
     profiles_mc(chk, "bytes", ["a", "eac", "han", "emo", "SP", "NBSP", "OGH", "A"], n, allp, ops, (0, 1), invariants=["Agree", "MappingsAgree", "AllowsAgree"])
+    profiles_mc(chk, "bytes-framed", ["a", "eac", "han", "emo", "SP", "NBSP", "heb", "A", "FWA"], 0, allp, ["prepare", "enforce"], (0,),
+                invariants=["Agree", "MappingsAgree"], frame=(9, 2, 1, ("a", "eac")) if q else (9, 4, 2, ("a", "eac", "han")))
     out, t = run_harness(["c01sweep", "--oracle", ensure_oracle(), "--seed", str(chk.seed), "--max-len", "4" if q else "6",
                           "--random", "20000" if q else "300000"])
     summary = None
